@@ -17,6 +17,7 @@ import (
 	"github.com/bytedance/sonic/internal/cpu"
 	"github.com/bytedance/sonic/internal/jit"
 	"github.com/bytedance/sonic/internal/native"
+	ntypes "github.com/bytedance/sonic/internal/native/types"
 	"github.com/bytedance/sonic/internal/rt"
 )
 
@@ -112,6 +113,10 @@ func verifWrite(d verifDump) {
 	}
 }
 
+type verifQS struct {
+	S string `json:",string"`
+}
+
 type verifS1 struct {
 	A int8
 	B bool
@@ -146,7 +151,7 @@ func TestVerifDump(t *testing.T) {
 		"int8": int8(0), "int16": int16(0), "int32": int32(0), "int64": int64(0),
 		"uint8": uint8(0), "uint16": uint16(0), "uint32": uint32(0), "uint64": uint64(0),
 		"float32": float32(0), "float64": float64(0), "bool": false, "slice_int": []int{}, "struct_s1": verifS1{},
-		"map_u32": map[uint32]int{}, "bytes": []byte{}, "array2_int": [2]int{}, "string": "", "struct_empty": struct{}{},
+		"map_u32": map[uint32]int{}, "bytes": []byte{}, "array2_int": [2]int{}, "string": "", "struct_empty": struct{}{}, "struct_qstr": verifQS{},
 	}
 	for name, v := range types {
 		prog, err := newCompiler().compile(reflect.TypeOf(v))
@@ -157,6 +162,8 @@ func TestVerifDump(t *testing.T) {
 		d := verifDump{Name: "dec_" + name, Kind: "typed", Consts: map[string]int64{}}
 		d.Consts["F_disable_unknown"] = int64(_F_disable_unknown)
 		d.Consts["F_case_sensitive"] = int64(_F_case_sensitive)
+		d.Consts["F_disable_urc"] = int64(_F_disable_urc)
+		d.Consts["B_UNICODE_REPLACE"] = int64(ntypes.B_UNICODE_REPLACE)
 		for _, ins := range prog {
 			d.Program = append(d.Program, ins.disassemble())
 			d.Ops = append(d.Ops, verifOpOf(ins))
@@ -190,6 +197,8 @@ func TestVerifDump(t *testing.T) {
 	d.Ins = vd.BaseAssembler.VerifDump(vd.compile)
 	// layout of the real state stack the generated code indexes (ST = &_Stack.mm)
 	var stk _Stack
+	d.Consts["F_disable_urc"] = int64(_F_disable_urc)
+	d.Consts["B_UNICODE_REPLACE"] = int64(ntypes.B_UNICODE_REPLACE)
 	d.Consts["vt_len"] = int64(len(stk.mm.Vt))
 	d.Consts["vt_off"] = int64(unsafe.Offsetof(stk.mm.Vt))
 	d.Consts["vp_len"] = int64(len(stk.vp))
